@@ -190,6 +190,7 @@ def parse_pkt(P, ctx, cur, path):
     P0 = cur
     vals = {}
     fields = P['fields']
+    fstarts = {}
     i = 0
     while i < len(fields):
         fname, node = fields[i]
@@ -199,16 +200,19 @@ def parse_pkt(P, ctx, cur, path):
             try:
                 cur = apply_pos(p, vals, kinds, cur, P0)
             except Fail as f:
+                f.field_starts = dict(fstarts)
                 f.stack.append((cur, ['_shift_to_' + fname], P['name']))
                 raise
             ctx.touch(cur)
         fstart = cur
+        fstarts[fname] = cur
         try:
             if i in runs:
                 names, widths = runs[i]
                 nbytes = sum(widths) // 8
                 for nm in names:
                     ctx.starts[path + (nm,)] = cur
+                    fstarts[nm] = cur
                 bs = ctx.need(cur, nbytes, path + (names[0],))
                 bits = ''.join(format(b, '08b') for b in bs)
                 at = 0
@@ -222,6 +226,8 @@ def parse_pkt(P, ctx, cur, path):
             if node['k'] != 'em':
                 vals[fname] = v
         except Fail as f:
+            if not f.stack:
+                f.field_starts = dict(fstarts)
             f.stack.append((fstart, names, P['name']))
             raise
         i += 1
@@ -390,6 +396,7 @@ def encode_pkt(P, pv, out, path, pkts):
     vals = pv.vals
     P0 = out.cur
     fields = P['fields']
+    fstarts = {}
     i = 0
     while i < len(fields):
         fname, node = fields[i]
@@ -399,13 +406,17 @@ def encode_pkt(P, pv, out, path, pkts):
             try:
                 out.cur = apply_pos(p, vals, kinds, out.cur, P0)
             except Fail as f:
+                f.field_starts = dict(fstarts)
                 f.stack.append((out.cur, ['_shift_to_' + fname], P['name']))
                 raise
             if out.cur < 0:
                 raise OutOfScope('cursor below 0')
+        fstarts[fname] = out.cur
         try:
             if i in runs:
                 names, widths = runs[i]
+                for nm in names:
+                    fstarts[nm] = out.cur
                 bits = ''
                 for nm, w in zip(names, widths):
                     v = vals[nm]
@@ -423,6 +434,8 @@ def encode_pkt(P, pv, out, path, pkts):
             else:
                 encode_node(node, fname, vals[fname], vals, kinds, opts, out, P0, path + (fname,), pkts)
         except Fail as f:
+            if not f.stack:
+                f.field_starts = dict(fstarts)
             f.stack.append((out.cur, names, P['name']))
             raise
         i += 1
